@@ -90,11 +90,12 @@ func newMachine(st *stats.Collector) *machine {
 
 func (m *machine) close() { m.f.Close() }
 
-// exec sends one DDL statement through the session whose current database is d. An
+// exec sends one DDL statement through the session whose current database is db (the engine
+// rejects e.g. RENAME TABLE `e`.`x` TO `e`.`y` from a session whose current database is d). An
 // unexpected rejection ends the case (the model only describes accepted statements; what a
 // failed statement may leave behind is property C15's subject, not C43's).
-func (m *machine) exec(rt *rapid.T, action, q string) bool {
-	r := m.sess["d"].Exec(q)
+func (m *machine) exec(rt *rapid.T, db, action, q string) bool {
+	r := m.sess[db].Exec(q)
 	if r.Panic != nil {
 		m.dead = true
 		m.st.Class("abandoned-panic:" + action)
@@ -227,7 +228,7 @@ func (m *machine) createTable(rt *rapid.T) {
 			}
 		}
 	}
-	if m.exec(rt, "create-table", "CREATE TABLE "+qn(db, name)+" ("+strings.Join(defs, ", ")+")") {
+	if m.exec(rt, db, "create-table", "CREATE TABLE "+qn(db, name)+" ("+strings.Join(defs, ", ")+")") {
 		m.cat.Tables = append(m.cat.Tables, t)
 	}
 }
@@ -274,7 +275,7 @@ func (m *machine) dropTable(rt *rapid.T) {
 		m.st.Excluded("drop-table-with-view")
 		rt.Skip("excluded")
 	}
-	if !m.exec(rt, "drop-table", "DROP TABLE "+qn(t.DB, t.Name)) {
+	if !m.exec(rt, t.DB, "drop-table", "DROP TABLE "+qn(t.DB, t.Name)) {
 		return
 	}
 	if len(trigs) > 0 || len(views) > 0 || len(t.FKs) > 0 {
@@ -335,7 +336,7 @@ func (m *machine) renameTable(rt *rapid.T) {
 	default:
 		q = "ALTER TABLE " + qn(t.DB, t.Name) + " RENAME " + qn(t.DB, nn)
 	}
-	if !m.exec(rt, "rename-table", q) {
+	if !m.exec(rt, t.DB, "rename-table", q) {
 		return
 	}
 	if len(trigs) > 0 || len(views) > 0 || len(refs) > 0 || len(t.FKs) > 0 {
@@ -375,7 +376,7 @@ func (m *machine) addColumn(rt *rapid.T) {
 		q += " AFTER " + qid(t.Cols[after].Name)
 		pos = after + 1
 	}
-	if !m.exec(rt, "add-column", q) {
+	if !m.exec(rt, t.DB, "add-column", q) {
 		return
 	}
 	t.Cols = append(t.Cols[:pos], append([]mCol{c}, t.Cols[pos:]...)...)
@@ -417,7 +418,7 @@ func (m *machine) dropColumn(rt *rapid.T) {
 	if rapid.Bool().Draw(rt, "short") {
 		q = "ALTER TABLE " + qn(t.DB, t.Name) + " DROP " + qid(name)
 	}
-	if !m.exec(rt, "drop-column", q) {
+	if !m.exec(rt, t.DB, "drop-column", q) {
 		return
 	}
 	if inIdx || usedByView {
@@ -473,7 +474,7 @@ func (m *machine) modifyColumn(rt *rapid.T) {
 	if !nc.Nullable {
 		q += " NOT NULL"
 	}
-	if !m.exec(rt, "modify-column", q) {
+	if !m.exec(rt, t.DB, "modify-column", q) {
 		return
 	}
 	*c = nc
@@ -484,9 +485,16 @@ func (m *machine) renameColumn(rt *rapid.T) {
 	t := m.anyTable(rt)
 	var cands []int
 	for i, c := range t.Cols {
-		if !t.colInCheck(c.Name) {
-			cands = append(cands, i)
+		if t.colInCheck(c.Name) {
+			continue
 		}
+		if p := t.pk(); p != nil && len(p.Cols) > 1 && t.inPK(c.Name) {
+			// engine DDL defect outside this property (notes: O1): renaming a member of a
+			// composite primary key changes the key's column order in the catalog itself
+			m.st.Class("skipped:rename-column-in-composite-pk")
+			continue
+		}
+		cands = append(cands, i)
 	}
 	ci := pick(rt, cands, "column")
 	c := &t.Cols[ci]
@@ -512,7 +520,7 @@ func (m *machine) renameColumn(rt *rapid.T) {
 		}
 	}
 	dependants := t.memberOfIndex(old) || t.colInFK(old) || m.cat.colReferenced(t, old) || usedByView
-	if !m.exec(rt, "rename-column", q) {
+	if !m.exec(rt, t.DB, "rename-column", q) {
 		return
 	}
 	if dependants {
@@ -552,7 +560,7 @@ func (m *machine) addPK(rt *rapid.T) {
 	for _, ci := range rapid.Permutation(intsTo(len(t.Cols))).Draw(rt, "pkcols")[:k] {
 		ix.Cols = append(ix.Cols, t.Cols[ci].Name)
 	}
-	if !m.exec(rt, "add-primary-key", "ALTER TABLE "+qn(t.DB, t.Name)+" ADD PRIMARY KEY ("+qids(ix.Cols)+")") {
+	if !m.exec(rt, t.DB, "add-primary-key", "ALTER TABLE "+qn(t.DB, t.Name)+" ADD PRIMARY KEY ("+qids(ix.Cols)+")") {
 		return
 	}
 	for _, cn := range ix.Cols {
@@ -570,7 +578,7 @@ func (m *machine) dropPK(rt *rapid.T) {
 		}
 	}
 	t := pick(rt, cands, "table")
-	if !m.exec(rt, "drop-primary-key", "ALTER TABLE "+qn(t.DB, t.Name)+" DROP PRIMARY KEY") {
+	if !m.exec(rt, t.DB, "drop-primary-key", "ALTER TABLE "+qn(t.DB, t.Name)+" DROP PRIMARY KEY") {
 		return
 	}
 	var idx []mIdx
@@ -599,7 +607,7 @@ func (m *machine) addIndex(rt *rapid.T) {
 	if rapid.Bool().Draw(rt, "createindex") {
 		q = "CREATE " + u + "INDEX " + qid(name) + " ON " + qn(t.DB, t.Name) + " (" + qids(ix.Cols) + ")"
 	}
-	if !m.exec(rt, "add-index", q) {
+	if !m.exec(rt, t.DB, "add-index", q) {
 		return
 	}
 	t.Idx = append(t.Idx, ix)
@@ -620,7 +628,7 @@ func (m *machine) dropIndex(rt *rapid.T) {
 	if rapid.Bool().Draw(rt, "dropindex") {
 		q = "DROP INDEX " + qid(name) + " ON " + qn(t.DB, t.Name)
 	}
-	if !m.exec(rt, "drop-index", q) {
+	if !m.exec(rt, t.DB, "drop-index", q) {
 		return
 	}
 	var idx []mIdx
@@ -662,7 +670,7 @@ func (m *machine) addFK(rt *rapid.T) {
 	pr := pick(rt, cands, "fkpair")
 	name := unusedName(rt, fkNames, func(n string) bool { return m.cat.constraintNameTaken(pr.child.DB, n) }, "fkname")
 	q := "ALTER TABLE " + qn(pr.child.DB, pr.child.Name) + " ADD CONSTRAINT " + qid(name) + " FOREIGN KEY (" + qid(pr.cc) + ") REFERENCES " + qn(pr.parent.DB, pr.parent.Name) + " (" + qid(pr.pc) + ")"
-	if !m.exec(rt, "add-foreign-key", q) {
+	if !m.exec(rt, pr.child.DB, "add-foreign-key", q) {
 		return
 	}
 	pr.child.FKs = append(pr.child.FKs, mFK{Name: name, Col: pr.cc, RefDB: pr.parent.DB, RefTable: pr.parent.Name, RefCol: pr.pc})
@@ -678,7 +686,7 @@ func (m *machine) dropFK(rt *rapid.T) {
 	}
 	t := pick(rt, cands, "table")
 	i := rapid.IntRange(0, len(t.FKs)-1).Draw(rt, "fk")
-	if !m.exec(rt, "drop-foreign-key", "ALTER TABLE "+qn(t.DB, t.Name)+" DROP FOREIGN KEY "+qid(t.FKs[i].Name)) {
+	if !m.exec(rt, t.DB, "drop-foreign-key", "ALTER TABLE "+qn(t.DB, t.Name)+" DROP FOREIGN KEY "+qid(t.FKs[i].Name)) {
 		return
 	}
 	t.FKs = append(t.FKs[:i], t.FKs[i+1:]...)
@@ -695,7 +703,7 @@ func (m *machine) addCheck(rt *rapid.T) {
 	}
 	col := pick(rt, cols, "column")
 	name := unusedName(rt, chkNames, func(n string) bool { return m.cat.constraintNameTaken(t.DB, n) }, "ckname")
-	if !m.exec(rt, "add-check", "ALTER TABLE "+qn(t.DB, t.Name)+" ADD CONSTRAINT "+qid(name)+" CHECK ("+qid(col)+" < 1000)") {
+	if !m.exec(rt, t.DB, "add-check", "ALTER TABLE "+qn(t.DB, t.Name)+" ADD CONSTRAINT "+qid(name)+" CHECK ("+qid(col)+" < 1000)") {
 		return
 	}
 	t.Checks = append(t.Checks, mCheck{Name: name, Col: col})
@@ -712,7 +720,7 @@ func (m *machine) dropCheck(rt *rapid.T) {
 	t := pick(rt, cands, "table")
 	i := rapid.IntRange(0, len(t.Checks)-1).Draw(rt, "check")
 	kw := rapid.SampledFrom([]string{"DROP CHECK", "DROP CONSTRAINT"}).Draw(rt, "form")
-	if !m.exec(rt, "drop-check", "ALTER TABLE "+qn(t.DB, t.Name)+" "+kw+" "+qid(t.Checks[i].Name)) {
+	if !m.exec(rt, t.DB, "drop-check", "ALTER TABLE "+qn(t.DB, t.Name)+" "+kw+" "+qid(t.Checks[i].Name)) {
 		return
 	}
 	t.Checks = append(t.Checks[:i], t.Checks[i+1:]...)
@@ -727,7 +735,7 @@ func (m *machine) createView(rt *rapid.T) {
 	for _, c := range t.Cols[:k] {
 		v.Cols = append(v.Cols, c.Name)
 	}
-	if !m.exec(rt, "create-view", "CREATE VIEW "+qn(t.DB, name)+" AS SELECT "+qids(v.Cols)+" FROM "+qn(t.DB, t.Name)) {
+	if !m.exec(rt, t.DB, "create-view", "CREATE VIEW "+qn(t.DB, name)+" AS SELECT "+qids(v.Cols)+" FROM "+qn(t.DB, t.Name)) {
 		return
 	}
 	m.cat.Views = append(m.cat.Views, v)
@@ -736,7 +744,7 @@ func (m *machine) createView(rt *rapid.T) {
 func (m *machine) dropView(rt *rapid.T) {
 	m.skipIfDead(rt)
 	v := pick(rt, m.cat.Views, "view")
-	if !m.exec(rt, "drop-view", "DROP VIEW "+qn(v.DB, v.Name)) {
+	if !m.exec(rt, v.DB, "drop-view", "DROP VIEW "+qn(v.DB, v.Name)) {
 		return
 	}
 	m.dropped = append(m.dropped, "VIEW "+qn(v.DB, v.Name))
@@ -757,7 +765,7 @@ func (m *machine) createTrigger(rt *rapid.T) {
 	g := &mTrigger{DB: t.DB, Name: name, Table: t.Name,
 		Event:  rapid.SampledFrom([]string{"INSERT", "UPDATE", "DELETE"}).Draw(rt, "event"),
 		Timing: rapid.SampledFrom([]string{"BEFORE", "AFTER"}).Draw(rt, "timing")}
-	if !m.exec(rt, "create-trigger", "CREATE TRIGGER "+qn(t.DB, name)+" "+g.Timing+" "+g.Event+" ON "+qn(t.DB, t.Name)+" FOR EACH ROW SET @c43 = 1") {
+	if !m.exec(rt, t.DB, "create-trigger", "CREATE TRIGGER "+qn(t.DB, name)+" "+g.Timing+" "+g.Event+" ON "+qn(t.DB, t.Name)+" FOR EACH ROW SET @c43 = 1") {
 		return
 	}
 	m.cat.Triggers = append(m.cat.Triggers, g)
@@ -766,7 +774,7 @@ func (m *machine) createTrigger(rt *rapid.T) {
 func (m *machine) dropTrigger(rt *rapid.T) {
 	m.skipIfDead(rt)
 	g := pick(rt, m.cat.Triggers, "trigger")
-	if !m.exec(rt, "drop-trigger", "DROP TRIGGER "+qn(g.DB, g.Name)) {
+	if !m.exec(rt, g.DB, "drop-trigger", "DROP TRIGGER "+qn(g.DB, g.Name)) {
 		return
 	}
 	m.dropped = append(m.dropped, "TRIGGER "+qn(g.DB, g.Name))
@@ -785,7 +793,7 @@ func (m *machine) createProc(rt *rapid.T) {
 		return false
 	}, "pname")
 	params := rapid.SampledFrom([]string{"()", "(x INT)", "(IN x INT, OUT y INT)"}).Draw(rt, "params")
-	if !m.exec(rt, "create-procedure", "CREATE PROCEDURE "+qn(db, name)+params+" SELECT 1") {
+	if !m.exec(rt, db, "create-procedure", "CREATE PROCEDURE "+qn(db, name)+params+" SELECT 1") {
 		return
 	}
 	m.cat.Procs = append(m.cat.Procs, &mProc{DB: db, Name: name})
@@ -794,7 +802,7 @@ func (m *machine) createProc(rt *rapid.T) {
 func (m *machine) dropProc(rt *rapid.T) {
 	m.skipIfDead(rt)
 	p := pick(rt, m.cat.Procs, "procedure")
-	if !m.exec(rt, "drop-procedure", "DROP PROCEDURE "+qn(p.DB, p.Name)) {
+	if !m.exec(rt, p.DB, "drop-procedure", "DROP PROCEDURE "+qn(p.DB, p.Name)) {
 		return
 	}
 	m.dropped = append(m.dropped, "PROCEDURE "+qn(p.DB, p.Name))
